@@ -433,4 +433,269 @@ theorem splitPositions_eq (chunks ws perm mods : List Nat) (den : Nat)
     simp only [Bool.false_eq_true, if_false, he]
     exact refineAll_spec _ _ _ _ _ hg
 
+/-- The positions are non-decreasing and at most the slab's length. -/
+theorem spec_positions_sorted (total den : Nat) (sw : List Nat) (l : List Nat) (a : Nat) :
+    ((cumul l a).map (fun A => specIdx total den A sw)).Pairwise (· ≤ ·) ∧
+    ∀ p ∈ (cumul l a).map (fun A => specIdx total den A sw), p ≤ sw.length := by
+  refine ⟨List.Pairwise.map _ (fun _ _ h => specIdx_mono total den sw h) (cumul_sorted l a), ?_⟩
+  intro p hp
+  obtain ⟨A, _, rfl⟩ := List.mem_map.1 hp
+  exact (specIdx_spec total den A sw).1
+
+/-! ## `split_at_mut_many` -/
+
+/-- The slices `split_at_mut_many` returns. -/
+def segs {α} : List α → Nat → List Nat → List (List α)
+  | rest, _, [] => [rest]
+  | rest, drained, p :: ps => rest.take (p - drained) :: segs (rest.drop (p - drained)) p ps
+
+theorem splitManyAux_eq {α} : ∀ (ps : List Nat) (rest : List α) (drained : Nat),
+    ps.Pairwise (· ≤ ·) → (∀ p ∈ ps, drained ≤ p ∧ p ≤ drained + rest.length) →
+    splitManyAux rest drained ps = some (segs rest drained ps) := by
+  intro ps
+  induction ps with
+  | nil => intro rest drained _ _; simp [splitManyAux, segs]
+  | cons p ps ih =>
+    intro rest drained hs hb
+    obtain ⟨h1, h2⟩ := hb p (by simp)
+    have hd : drained + (p - drained) = p := by omega
+    simp only [splitManyAux, segs, hd]
+    rw [if_neg (by omega), if_neg (by omega)]
+    rw [ih (rest.drop (p - drained)) p (List.pairwise_cons.1 hs).2 (by
+      intro p' hp'
+      have := (List.pairwise_cons.1 hs).1 p' hp'
+      have := (hb p' (by simp [hp'])).2
+      simp only [List.length_drop]
+      omega)]
+
+theorem segs_flatten {α} : ∀ (ps : List Nat) (rest : List α) (drained : Nat),
+    (segs rest drained ps).flatten = rest := by
+  intro ps
+  induction ps with
+  | nil => intro rest drained; simp [segs]
+  | cons p ps ih => intro rest drained; simp [segs, ih]
+
+theorem segs_length {α} : ∀ (ps : List Nat) (rest : List α) (drained : Nat),
+    (segs rest drained ps).length = ps.length + 1 := by
+  intro ps
+  induction ps with
+  | nil => intro rest drained; simp [segs]
+  | cons p ps ih => intro rest drained; simp [segs, ih]
+
+/-! ## The recursion -/
+
+theorem Scheme.induct {P : Scheme → Prop}
+    (h : ∀ k mods den next, (∀ cs, next = some cs → ∀ c ∈ cs, P c) → P (.mk k mods den next)) :
+    ∀ s, P s := by
+  intro s
+  refine Scheme.rec (motive_1 := P)
+    (motive_2 := fun o => ∀ cs, o = some cs → ∀ c ∈ cs, P c)
+    (motive_3 := fun l => ∀ c ∈ l, P c) ?_ ?_ ?_ ?_ ?_ s
+  · intro k mods den next ih; exact h k mods den next ih
+  · intro cs h; simp at h
+  · intro val ih cs h; cases h; exact ih
+  · simp
+  · intro head tail ih1 ih2 c hc
+    rcases List.mem_cons.1 hc with rfl | h
+    · exact ih1
+    · exact ih2 c h
+
+/-- What the theorems need from `axis_sort`. -/
+structure SortOk (sort : (Nat → Int) → List Nat → List Nat) : Prop where
+  perm : ∀ k l, (sort k l).Perm l
+  sorted : ∀ k l, (sort k l).Pairwise (fun a b => k a ≤ k b)
+
+/-- Every chunking the parallel scan may use covers the slab. -/
+def ChunkOk (chunk : Nat → List Nat) : Prop := ∀ n, (chunk n).sum = n
+
+inductive All₃ {α β γ} (R : α → β → γ → Prop) : List α → List β → List γ → Prop
+  | nil : All₃ R [] [] []
+  | cons {a b c as bs cs} : R a b c → All₃ R as bs cs → All₃ R (a :: as) (b :: bs) (c :: cs)
+
+theorem all₂_of_forall {α β} {R : α → β → Prop} : ∀ (as : List α) (bs : List β),
+    as.length = bs.length → (∀ a ∈ as, ∀ b ∈ bs, R a b) → All₂ R as bs := by
+  intro as
+  induction as with
+  | nil => intro bs hl _; cases bs <;> simp_all [All₂.nil]
+  | cons a as ih =>
+    intro bs hl h
+    cases bs with
+    | nil => simp at hl
+    | cons b bs =>
+      exact .cons (h a (by simp) b (by simp))
+        (ih bs (by simpa using hl) (fun a' ha' b' hb' => h a' (by simp [ha']) b' (by simp [hb'])))
+
+/-- All elements below the children, slab by slab. -/
+theorem elems_node (hs : List Hier) : (Hier.node hs).elems = (hs.map Hier.elems).flatten := by
+  simp only [Hier.elems, Hier.leaves]
+  induction hs with
+  | nil => simp [leavesL]
+  | cons h hs ih => simp [leavesL, ih, Hier.elems]
+
+theorem leavesL_length (hs : List Hier) : (leavesL hs).length = (hs.map (fun h => h.leaves.length)).sum := by
+  induction hs with
+  | nil => simp [leavesL]
+  | cons h hs ih => simp [leavesL, ih]
+
+mutual
+/-- Jagged hierarchy: the children of a node are ordered along the node's axis (no
+coordinate of a slab exceeds a coordinate of a later slab) and each child is a jagged
+hierarchy along the next axis (cyclically). -/
+def Hier.Jagged (key : Nat → Nat → Int) (dim : Nat) : Hier → Nat → Prop
+  | .leaf _, _ => True
+  | .node cs, coord =>
+    (cs.map Hier.elems).Pairwise (fun a b => ∀ x ∈ a, ∀ y ∈ b, key coord x ≤ key coord y) ∧
+    JaggedL key dim cs ((coord + 1) % dim)
+def JaggedL (key : Nat → Nat → Int) (dim : Nat) : List Hier → Nat → Prop
+  | [], _ => True
+  | c :: cs, coord => c.Jagged key dim coord ∧ JaggedL key dim cs coord
+end
+
+section recursion
+variable {sort : (Nat → Int) → List Nat → List Nat} {chunk : Nat → List Nat}
+  (dim : Nat) (key : Nat → Nat → Int) (ws : List Nat)
+
+theorem recurseList_spec {Pcp : Scheme → List Nat → Prop} {Q : Scheme → List Nat → Hier → Prop}
+    (coord : Nat) : ∀ (cs : List Scheme) (subs : List (List Nat)),
+    (∀ c ∈ cs, ∀ p, Pcp c p → ∃ h, recurse {} sort chunk dim key ws c coord p = some h ∧ Q c p h) →
+    All₂ Pcp cs subs →
+    ∃ hs, recurseList {} sort chunk dim key ws cs coord subs = some hs ∧
+      All₃ (fun c p h => Pcp c p ∧ Q c p h) cs subs hs := by
+  intro cs subs hrec hall
+  induction hall with
+  | nil => exact ⟨[], by simp [recurseList], .nil⟩
+  | @cons c p cs subs hcp _ ih =>
+    obtain ⟨h, hh, hq⟩ := hrec c (by simp) p hcp
+    obtain ⟨hs, hhs, hall'⟩ := ih (fun c' hc' => hrec c' (by simp [hc']))
+    exact ⟨h :: hs, by simp [recurseList, hh, hhs], .cons ⟨hcp, hq⟩ hall'⟩
+
+/-- One splitting node of a well-formed scheme: the recursion sorts the slab, cuts it at the
+specified positions and descends into the pieces. -/
+theorem recurse_node (hsort : SortOk sort) (hchunk : ChunkOk chunk)
+    (k : Nat) (mods : List Nat) (den : Nat) (cs : List Scheme) (coord : Nat) (perm : List Nat)
+    (hlen : cs.length = k + 2) (hmods : mods = cs.map Scheme.leaves)
+    (hp : ∀ i ∈ perm, i < ws.length) :
+    recurse {} sort chunk dim key ws (.mk (k + 1) mods den (some cs)) coord perm =
+      (recurseList {} sort chunk dim key ws cs ((coord + 1) % dim)
+        (segs (sort (key coord) perm) 0
+          ((cumul mods.dropLast 0).map (fun A =>
+            specIdx (slabW ws (sort (key coord) perm)).sum den A (slabW ws (sort (key coord) perm)))))).map .node := by
+  have hm : mods ≠ [] := by
+    intro h; rw [h] at hmods
+    have := congrArg List.length hmods
+    simp at this; omega
+  have hp' : ∀ i ∈ sort (key coord) perm, i < ws.length :=
+    fun i hi => hp i ((hsort.perm _ _).mem_iff.1 hi)
+  simp only [recurse]
+  rw [splitPositions_eq _ _ _ _ _ hm hp' (hchunk _)]
+  have hso := spec_positions_sorted (slabW ws (sort (key coord) perm)).sum den
+    (slabW ws (sort (key coord) perm)) mods.dropLast 0
+  simp only [splitMany]
+  rw [splitManyAux_eq _ _ _ hso.1 (by
+    intro p hp
+    have := hso.2 p hp
+    simp [slabW] at this
+    omega)]
+
+/-- The per-child facts collected by `recurse_spec`. -/
+def ChildOk (coord : Nat) (c : Scheme) (p : List Nat) (h : Hier) : Prop :=
+  h.elems.Perm p ∧ h.leaves.length = c.leaves ∧ h.Jagged key dim coord
+
+theorem all₃_elems_perm {R : Scheme → List Nat → Hier → Prop} {cs subs hs}
+    (hR : ∀ c p h, R c p h → h.elems.Perm p) (h : All₃ R cs subs hs) :
+    ((hs.map Hier.elems).flatten).Perm subs.flatten := by
+  induction h with
+  | nil => simp
+  | cons h1 _ ih => simpa using List.Perm.append (hR _ _ _ h1) ih
+
+theorem all₃_leaves {R : Scheme → List Nat → Hier → Prop} {cs subs hs}
+    (hR : ∀ c p h, R c p h → h.leaves.length = c.leaves) (h : All₃ R cs subs hs) :
+    (leavesL hs).length = leavesSum cs := by
+  induction h with
+  | nil => simp [leavesL, leavesSum]
+  | cons h1 _ ih => simp [leavesL, leavesSum, hR _ _ _ h1, ih]
+
+theorem all₃_jagged {R : Scheme → List Nat → Hier → Prop} {cs subs hs} (coord : Nat)
+    (hR : ∀ c p h, R c p h → h.Jagged key dim coord) (h : All₃ R cs subs hs) :
+    JaggedL key dim hs coord := by
+  induction h with
+  | nil => simp [JaggedL]
+  | cons h1 _ ih => exact ⟨hR _ _ _ h1, ih⟩
+
+theorem all₃_mem {R : Scheme → List Nat → Hier → Prop} {cs subs hs}
+    (h : All₃ R cs subs hs) : ∀ h' ∈ hs, ∃ c ∈ cs, ∃ p ∈ subs, R c p h' := by
+  induction h with
+  | nil => simp
+  | @cons a b c as bs cs' h1 _ ih =>
+    intro h' hh'
+    rcases List.mem_cons.1 hh' with rfl | hm
+    · exact ⟨a, by simp, b, by simp, h1⟩
+    · obtain ⟨c', hc', p', hp', hr⟩ := ih h' hm
+      exact ⟨c', by simp [hc'], p', by simp [hp'], hr⟩
+
+theorem all₃_pairwise {R : Scheme → List Nat → Hier → Prop} {cs subs hs} (S : Nat → Nat → Prop)
+    (hR : ∀ c p h, R c p h → h.elems.Perm p) (h : All₃ R cs subs hs)
+    (hp : subs.Pairwise (fun a b => ∀ x ∈ a, ∀ y ∈ b, S x y)) :
+    (hs.map Hier.elems).Pairwise (fun a b => ∀ x ∈ a, ∀ y ∈ b, S x y) := by
+  induction h with
+  | nil => simp
+  | @cons a b c as bs cs' h1 hrest ih =>
+    simp only [List.map_cons, List.pairwise_cons] at hp ⊢
+    refine ⟨?_, ih hp.2⟩
+    intro e he x hx y hy
+    obtain ⟨h', hh', rfl⟩ := List.mem_map.1 he
+    obtain ⟨_, _, p', hp', hr⟩ := all₃_mem hrest h' hh'
+    exact hp.1 p' hp' x ((hR _ _ _ h1).mem_iff.1 hx) y ((hR _ _ _ hr).mem_iff.1 hy)
+
+/-- Totality and structure of the recursion on a well-formed scheme. -/
+theorem recurse_spec (hsort : SortOk sort) (hchunk : ChunkOk chunk) :
+    ∀ s : Scheme, s.WF → ∀ coord perm, (∀ i ∈ perm, i < ws.length) →
+      ∃ h, recurse {} sort chunk dim key ws s coord perm = some h ∧ ChildOk dim key coord s perm h := by
+  intro s
+  induction s using Scheme.induct with
+  | h k mods den next ih =>
+    intro hwf coord perm hp
+    cases k with
+    | zero =>
+      refine ⟨.leaf perm, by simp [recurse], ?_, ?_, ?_⟩
+      · simp [Hier.elems, Hier.leaves]
+      · simp [Hier.leaves, Scheme.leaves]
+      · simp [Hier.Jagged]
+    | succ k =>
+      cases next with
+      | none => simp [Scheme.WF] at hwf
+      | some cs =>
+        obtain ⟨hlen, hmods, _, _, hwfl⟩ := hwf
+        rw [recurse_node dim key ws hsort hchunk k mods den cs coord perm hlen hmods hp]
+        generalize hps : (cumul mods.dropLast 0).map (fun A =>
+            specIdx (slabW ws (sort (key coord) perm)).sum den A (slabW ws (sort (key coord) perm))) = ps
+        have hpslen : ps.length + 1 = cs.length := by
+          rw [← hps, List.length_map, cumul_length, List.length_dropLast, hmods, List.length_map]
+          omega
+        have hsub : ∀ p ∈ segs (sort (key coord) perm) 0 ps, ∀ i ∈ p, i < ws.length := by
+          intro p hp' i hi
+          have : i ∈ (segs (sort (key coord) perm) 0 ps).flatten := List.mem_flatten.2 ⟨p, hp', hi⟩
+          rw [segs_flatten] at this
+          exact hp i ((hsort.perm _ _).mem_iff.1 this)
+        obtain ⟨hs, hhs, hall⟩ := recurseList_spec (sort := sort) (chunk := chunk) dim key ws
+          (Pcp := fun _ p => ∀ i ∈ p, i < ws.length)
+          (Q := ChildOk dim key ((coord + 1) % dim)) ((coord + 1) % dim) cs
+          (segs (sort (key coord) perm) 0 ps)
+          (fun c hc p hcp => ih cs rfl c hc ((wfList_iff cs).1 hwfl c hc) _ p hcp)
+          (all₂_of_forall _ _ (by rw [segs_length]; omega) (fun _ _ p hp' => hsub p hp'))
+        refine ⟨.node hs, by simp [hhs], ?_, ?_, ?_, ?_⟩
+        · rw [elems_node]
+          refine (all₃_elems_perm (fun _ _ _ hr => hr.2.1) hall).trans ?_
+          rw [segs_flatten]
+          exact hsort.perm _ _
+        · simp only [Hier.leaves, Scheme.leaves]
+          exact all₃_leaves (fun _ _ _ hr => hr.2.2.1) hall
+        · refine all₃_pairwise (fun x y => key coord x ≤ key coord y) (fun _ _ _ hr => hr.2.1) hall ?_
+          have := hsort.sorted (key coord) perm
+          rw [← segs_flatten ps (sort (key coord) perm) 0, List.pairwise_flatten] at this
+          exact this.2
+        · exact all₃_jagged dim key _ (fun _ _ _ hr => hr.2.2.2) hall
+
+end recursion
+
 end Coupe.MultiJagged
